@@ -84,7 +84,7 @@ Definition compatible (s : stream) (p : policy) : Z :=
   else st_ok.
 
 (* stream_update (explicit SSRC): build the replacement, remove the old stream, insert the new one
-   with the old index and SRTCP window *)
+   with the old index, SRTCP window and a rollover counter imposed by set_roc that no packet has taken up yet *)
 Definition stream_update_specific (p : policy) : M unit :=
   check_st (valid_policy p) ;;;
   ss <- get_s ;;
@@ -96,7 +96,8 @@ Definition stream_update_specific (p : policy) : M unit :=
     stream_remove (p_ssrc p) ;;;
     let rx := s_rdbx n in
     insert_or_dealloc
-      (set_rdb (set_rdbx n {| index := index (s_rdbx old); wlen := wlen rx; mask := mask rx |}) (s_rdb old))
+      (set_pending (set_rdb (set_rdbx n {| index := index (s_rdbx old); wlen := wlen rx; mask := mask rx |}) (s_rdb old))
+                   (s_pending_roc old))
   end.
 
 (* a stream list under construction (update_template_streams) *)
@@ -132,7 +133,8 @@ Fixpoint move_streams (fuel : nat) (newt : stream) (nl : list stream * Z) : M (Z
           match c with
           | inr st => ret (st, nl)
           | inl ns =>
-            let ns' := set_rdb (set_rdbx ns {| index := index (s_rdbx s); wlen := wlen (s_rdbx ns); mask := mask (s_rdbx ns) |}) (s_rdb s) in
+            let ns' := set_pending (set_rdb (set_rdbx ns {| index := index (s_rdbx s); wlen := wlen (s_rdbx ns); mask := mask (s_rdbx ns) |}) (s_rdb s))
+                                   (s_pending_roc s) in
             r <- nl_insert nl ns' ;;
             if fst r =? st_ok then move_streams f newt (snd r)
             else stream_dealloc ns ;;; ret (fst r, nl)
